@@ -26,13 +26,13 @@ Proof.
   pose proof (sync_move cfg beh st v p S Hin) as Hm. cbv zeta in Hm.
   destruct Hm as (S1 & Ht1 & _ & _ & _ & _ & Hc1 & _ & Hs1 & _).
   rewrite <- (step_bytes cfg beh Huni st v (Move p) S Hin) in S1, Ht1.
-  pose proof (sync_step cfg beh Huni _ _ (WStr es) S1 Hes) as Hw. cbv zeta in Hw.
+  pose proof (sync_step cfg beh Huni _ _ (WStr es) S1 (wf_elems_c es Hes)) as Hw. cbv zeta in Hw.
   destruct Hw as (_ & (tr & Hpl & Htr) & _).
   exists tr. unfold v', hrun. cbn [fold_left hstep snd fst].
   split; [rewrite Htr, Ht1; reflexivity|].
   rewrite Hc1, Hs1 in Hpl. cbn [op_elems op_elements] in Hpl.
-  split; [|exact (placed_cells _ _ _ _ Hpl)].
-  destruct p as [x y]. exact (placed_positions _ es x y tr Hpl Hlen).
+  split; [|rewrite (placed_cells _ _ _ _ Hpl), (no_ctl_visible es (wf_elems_no_ctl es Hes)); reflexivity].
+  destruct p as [x y]. exact (placed_positions _ es x y tr Hpl (wf_elems_no_ctl es Hes) Hlen).
 Qed.
 Print Assumptions C02_placement.
 
@@ -48,12 +48,13 @@ Proof.
   pose proof (sync_move cfg beh st v p S Hin) as Hm. cbv zeta in Hm.
   destruct Hm as (S1 & Ht1 & _ & _ & _ & _ & Hc1 & _ & Hs1 & _).
   rewrite <- (step_bytes cfg beh Huni st v (Move p) S Hin) in S1, Ht1.
-  pose proof (sync_step cfg beh Huni _ _ (WElem e) S1 He) as Hw. cbv zeta in Hw.
+  pose proof (sync_step cfg beh Huni _ _ (WElem e) S1 (wf_elem_wf_elem_c e He)) as Hw. cbv zeta in Hw.
   destruct Hw as (_ & (tr & Hpl & Htr) & _).
   unfold v', hrun. cbn [fold_left hstep snd fst]. rewrite Htr, Ht1.
   cbn [op_elems op_elements] in Hpl. rewrite Hc1 in Hpl.
-  inversion Hpl as [|c e' es' q tr' Hq Hrest]; subst. inversion Hrest; subst.
-  rewrite (Hq p eq_refl). reflexivity.
+  inversion Hpl as [|c e' es' q tr' Hc Hq Hrest|c e' es' tr' Hc Hrest]; subst.
+  - inversion Hrest; subst. rewrite (Hq p eq_refl). reflexivity.
+  - rewrite (wf_elem_not_control e He) in Hc. discriminate.
 Qed.
 Print Assumptions C02_single.
 
